@@ -28,7 +28,9 @@ using tulz::rwp::Resource;
 using verif::ev;
 
 static int readersIn = 0, writersIn = 0, barrierTarget = 0, barrierIn = 0;
-static bool hasH = false, hHolding = false;
+static bool hasH = false, hHolding = false, crowd = false;
+static int holdTarget = 0;
+static int warpBits = 0;
 
 static int parkedCount() { int n = 0; for (auto &t : verif::Sched::I().ts) if (t.st == verif::Sched::PARKED) n++; return n; }
 
@@ -53,13 +55,25 @@ static void section(Resource &res, int t, char op, bool barrier) {
     bool hold = op == 'H';
     if (hold) op = 'W';
     if (barrier && hasH) verif::await([] { return hHolding; });
+    // crowd programs (`H` and no rendezvous): every other thread issues its request only while H holds, so that all of them
+    // queue up behind it — queue lengths far beyond what small programs reach
+    if (crowd && !hold) verif::await([] { return hHolding; });
     ev("call " + ts + " " + k);
     if (op == 'R' || op == 'W') {
         if (k == 'R') res.lockRead(); else res.lockWrite();
         ev("ret " + ts);
         enter(t, k);
         if (barrier) { barrierIn++; verif::await([] { return barrierIn >= barrierTarget; }); }
-        else if (hold) { hHolding = true; verif::await([] { return parkedCount() >= barrierTarget; }); }
+        else if (hold) {
+            if (warpBits && t == 0) {
+                // the Resource has been busy for a very long time: holder active, queue empty, 2^bits - 3 requests have queued since it
+                // was last idle (a state every sufficiently long history without an idle moment reaches; ids only ever matter
+                // relative to each other).  The next few requests cross the 2^bits boundary of the id counters.
+                using Id = decltype(res.m_idCounter);
+                res.m_idCounter = res.m_upperUnlockBound = static_cast<Id>((1ull << warpBits) - 3);
+            }
+            hHolding = true; verif::await([] { return parkedCount() >= holdTarget; });
+        }
         else verif::yield();
         leave(k);
         ev("ucall " + ts);
@@ -83,7 +97,7 @@ static void section(Resource &res, int t, char op, bool barrier) {
     if (op == 'r' || op == 'w') ev("uret " + ts);
 }
 
-static void runOne(const std::vector<std::string> &progs) {
+static void runOne(const std::vector<std::string> &progsIn) {
     Resource res, other;
     g_other = &other;
     {
@@ -92,9 +106,15 @@ static void runOne(const std::vector<std::string> &progs) {
         std::unique_lock<decltype(S.G)> lk(S.G);
         S.objId(&res.m_mutex); S.objId(&res.m_cv); S.objId(&other.m_mutex); S.objId(&other.m_cv);
     }
+    warpBits = 0;
+    std::vector<std::string> progs = progsIn;
+    if (!progs.empty() && !progs[0].empty() && progs[0][0] == '@') { warpBits = std::atoi(progs[0].c_str() + 1); progs.erase(progs.begin()); }
     readersIn = writersIn = barrierIn = 0;
     barrierTarget = 0; hasH = false; hHolding = false;
     for (auto &p : progs) for (char c : p) { if (c == 'b') barrierTarget++; if (c == 'H') hasH = true; }
+    if (warpBits) hasH = true;
+    crowd = hasH && barrierTarget == 0;
+    holdTarget = crowd ? (int) progs.size() - (warpBits ? 0 : 1) : barrierTarget;
     std::vector<std::unique_ptr<std::thread>> ths;
     for (size_t i = 0; i < progs.size(); i++) {
         std::string p = progs[i];
@@ -108,6 +128,7 @@ static void runOne(const std::vector<std::string> &progs) {
             ev("done " + std::to_string(t));
         }));
     }
+    if (warpBits) section(res, 0, 'H', false);          // `@<bits>`: the main thread is the long-time holder
     for (auto &t : ths) t->join();
     // idle-state probe (C02): with everything released the next requests are granted without waiting
     ev("probe");
